@@ -248,7 +248,7 @@ def run(ctx):
         try:
             mc['r'] = _retry(lambda: ctx.model('TemplateMC', 'TemplateMC' if quick else 'TemplateMC_thorough',
                                                required=('Pick', 'Descend', 'SkipNode', 'Subst', 'LoopSubst', 'Stop'),
-                                               workers=8 if quick else 12, heap='2g' if quick else '8g', timeout=3000))
+                                               workers=8 if quick else 12, heap='3g' if quick else '8g', timeout=3000))
         except BaseException as e:  # noqa: BLE001
             mc['e'] = e
     th = threading.Thread(target=model)
